@@ -12,7 +12,11 @@ import (
 func main() {
 	prop := flag.String("p", "", "property id")
 	tier := flag.String("tier", "quick", "quick | thorough")
+	replay := flag.String("replay", "", "replay a saved counterexample natively")
 	flag.Parse()
+	if *replay != "" {
+		os.Exit(checks.Replay(*replay))
+	}
 	if t := os.Getenv("VERIF_TIER"); t != "" && *tier == "" {
 		*tier = t
 	}
